@@ -357,6 +357,9 @@ pub struct RunState<'a, M: MachineIO<MachineStack>> {
     ctx: CommandContext,
     // Cursors for `QueryStart` results
     query_iter_stack: Vec<(Fact, M::QueryIterator)>,
+    /// For every active `Call`/`Recall`: how many cursors were open when it was made, so
+    /// that a `Return` from inside a `map` loop drops the cursors of the callee.
+    query_iter_depths: Vec<usize>,
     #[cfg(feature = "bench")]
     stopwatch: Stopwatch,
 }
@@ -376,6 +379,7 @@ where
             io,
             ctx,
             query_iter_stack: vec![],
+            query_iter_depths: vec![],
             #[cfg(feature = "bench")]
             stopwatch: Stopwatch::new(),
         }
@@ -639,6 +643,7 @@ where
                     // Store the current PC. The PC will be incremented after return,
                     // so there's no need to increment here.
                     self.call_state.push(self.pc);
+                    self.query_iter_depths.push(self.query_iter_stack.len());
                     self.pc = n;
                     return Ok(MachineStatus::Executing);
                 }
@@ -662,6 +667,7 @@ where
                     // Store the current PC. The PC will be incremented after return,
                     // so there's no need to increment here.
                     self.call_state.push(self.pc);
+                    self.query_iter_depths.push(self.query_iter_stack.len());
                     self.pc = n;
                     return Ok(MachineStatus::Executing);
                 }
@@ -675,6 +681,11 @@ where
                     .call_state
                     .pop()
                     .ok_or_else(|| self.err(MachineErrorType::CallStack))?;
+                // Cursors opened by the callee and not yet exhausted (early `return` from
+                // inside `map`) must not be seen by the caller's loops.
+                if let Some(depth) = self.query_iter_depths.pop() {
+                    self.query_iter_stack.truncate(depth);
+                }
                 self.scope.exit_function().map_err(|e| self.err(e))?;
             }
             Instruction::ExtCall(module, proc) => {
@@ -1235,6 +1246,8 @@ where
     fn setup_function(&mut self, label: &Label) -> Result<(), MachineError> {
         self.set_pc_by_label(label)?;
         self.call_state.clear();
+        self.query_iter_depths.clear();
+        self.query_iter_stack.clear();
         self.scope.clear();
 
         Ok(())
